@@ -1361,9 +1361,136 @@ def run_netlist(ck, nl, cases, notes):
     bt = [t for f, t in tables if f == 'bench']
     if vt and bt:
         ck.hist['verilog-vs-bench compared'] += 1
+        format_eq_hyp(ck, nl, cases)
         if not all(np.array_equal(vt[0], t) for t in vt[1:] + bt):
             ck.violation('format-equivalence', 'Verilog and bench renderings of the same netlist give different truth tables',
                          {'cases': [_slim(c) for c in cases]}, None, None)
+
+
+# ---------------------------------------------------------------------------------------------- "either format" (section FormatEquiv)
+def nl_description(nl):
+    """the netlist as the description type `Nl` of Proofs/FormatEquiv2.lean (canonical; bus bits as scalar names, the clock left out,
+    an assign pair as a buffer, a constant as a `__const<b>__` gate, the QN output of a flip-flop as an inverter of Q — as the bench
+    rendering writes them): (ports [(is_output, bit)], gates [(name, kind, inst, drv)]) or (None, reason)"""
+    used = set(nl['bits']) | set(nl['sigs']) | {g['inst'] for g in nl['gates']}
+    cnt = [0]
+
+    def fresh(prefix):
+        while True:
+            cnt[0] += 1
+            n = f'{prefix}{cnt[0]}'
+            if n not in used:
+                used.add(n); return n
+    ports = []
+    for s_ in nl['portlist']:
+        if s_ == nl['clk']: continue
+        for b in gen.sig_bits(s_, nl['sigs'][s_]):
+            ports.append((nl['sigs'][s_]['dir'] == 'output', b))
+    gates, extra = [], []
+
+    def src(a):
+        if a in gen.CONST:
+            w = fresh('fe_k')
+            extra.append((w, '__const0__' if gen.CONST[a] == 0 else '__const1__', fresh('fe_u'), []))
+            return w
+        return a
+    for g in nl['gates']:
+        if g['fam'] not in cells.BENCH_KINDS or (cells.is_seq(g['fam']) and g['fam'] != 'DFF'): return None, 'kind-not-in-bench'
+        kinds = cells.BENCH_KINDS[g['fam']]
+        kind = kinds[len(g['inst']) % len(kinds)]
+        if g['fam'] == 'DFF':
+            q = g['res'][0] if g['res'][0] is not None else fresh('fe_q')
+            gates.append((q, kind, g['inst'], [src(a) for a in g['args']]))
+            if len(g['res']) > 1 and g['res'][1] is not None:
+                gates.append((g['res'][1], 'NOT', fresh('fe_u'), [q]))
+            continue
+        outs = [k for k, r in enumerate(g['res']) if r is not None]
+        if outs != [0]: return None, 'multi-output-cell'
+        gates.append((g['res'][0], kind, g['inst'], [src(a) for a in g['args']]))
+    for a in nl['assigns']:
+        for t, s_ in zip(a['t'], a['s']):
+            gates.append((t, 'BUF', fresh('fe_u'), [src(s_)]))
+    return (ports, gates + extra), None
+
+
+def format_eq_hyp(ck, nl, cases):
+    """tie of section `FormatEquiv` of Props/C11Library.lean for one netlist of the `format-equivalence` stream: the hypotheses
+    `commonNlB`, `closedNlB` (and `benchOKB` / `verilogOKB` of the two canonical renderings) evaluated by the driver (tags `format-eq-hyp:*`); inside
+    them the captured values of the model of `benchOf nl` (= those of `verilogOf nl`: `?` marks a difference) on sampled assignments
+    == the generator's own evaluation of the netlist"""
+    import random
+    d, why = nl_description(nl)
+    if d is None:
+        ck.hist[f'format-eq-hyp:not-a-description:{why}'] += 1; return
+    ports, gates = d
+    wide = gen.has_wide(nl)
+    const = False      # constants are written as `__const<b>__` gates by `nl_description`
+    pis, ffs, pos = nl['pi'], gen.ff_insts(nl), nl['po']
+    pnames = [b for _, b in ports]
+    ffg = [g[2] for g in gates if 'dff' in g[1].lower()]
+    try:
+        ipos = [pnames.index(b) for b in pis] + [len(ports) + ffg.index(f) for f in ffs]
+        opos = [pnames.index(b) for b in pos] + [len(ports) + ffg.index(f) for f in ffs]
+    except ValueError as ex:
+        ck.hist['format-eq-hyp:not-a-description:port-missing'] += 1; return
+    npos = len(ports) + len(ffg)
+    rows = stim_rows(len(pis) + len(ffs), cases[0].get('seed', 0))
+    r = random.Random(cases[0].get('seed', 0))
+    ncol = rows.shape[1]
+    cols = sorted(set([0, ncol - 1] + [r.randrange(ncol) for _ in range(10)]))
+    sub = rows[:, cols]
+    reqs = []
+    for j in range(sub.shape[1]):
+        a = ['0'] * npos
+        for k, p_ in enumerate(ipos): a[p_] = str(int(sub[k, j]))
+        reqs.append(''.join(a))
+    fix, one = probe_cfg()
+    ptok = ','.join(('o' if o else 'i') + pct(b) for o, b in ports) or '~'
+    gtok = ';'.join(f"{pct(n)}:{pct(k)}:{pct(i)}:{','.join(pct(x) for x in dr)}" for n, k, i, dr in gates) or '~'
+    inp = {'nl': nl, 'request': f'nlequiv 0{int(fix)}{int(one)} {ptok} {gtok}'}
+    try:
+        ans = common.run_driver([f"nlequiv 0{int(fix)}{int(one)} {ptok} {gtok} {'/'.join(reqs) or '~'}"])[0].split(' ')
+        flags = dict(x.split('=') for x in ans[:6])
+        common_, closed, bok, vok = flags['common'] == '1', flags['closed'] == '1', flags['benchok'] == '1', flags['vok'] == '1'
+    except Exception as ex:
+        ck.broken_tie('format_eq: driver', f'{type(ex).__name__}: {ex}'[:300], inp=inp); return
+    ck.hist[f'format-eq-hyp:commonNlB={int(common_)}'] += 1
+    if not common_:
+        ck.hist[f"format-eq-hyp:outside:{'wide-gate' if wide else 'constant-operand' if const else 'other'}"] += 1
+    if common_ == (wide or const):
+        ck.broken_tie('format_eq: fragment', f'commonNlB={common_} but the generator put wide gate: {wide}, constant operand: {const}', inp=inp); return
+    if not common_: return
+    ck.hist[f'format-eq-hyp:closedNlB={int(closed)}'] += 1
+    try:        # the fragment of the Verilog rendering WITH branch forks (hypothesis of `bench_verilog_sim_equiv`, not derived)
+        a1 = common.run_driver([f"nlequiv 1{int(fix)}{int(one)} {ptok} {gtok} ~"])[0].split(' ')
+        f1 = dict(x.split('=') for x in a1[:6])
+        ck.hist[f"format-eq-hyp:closedBfNlB={f1['closedbf']},verilogOKB(branchforks)={f1['vok']}"] += 1
+        if f1['closedbf'] == '1' and f1['vok'] != '1':
+            ck.broken_tie('format_eq: renderings', f'closedBfNlB but verilogOKB with branch forks is false: {" ".join(a1[:6])}', inp=inp); return
+    except Exception as ex:
+        ck.broken_tie('format_eq: driver', f'{type(ex).__name__}: {ex}'[:300], inp=inp); return
+    ck.hist[f'format-eq-hyp:benchOKB={int(bok)},verilogOKB={int(vok)}'] += 1
+    if not closed:      # every generated operand is driven and no generated name looks like a constant bit
+        ck.broken_tie('format_eq: fragment', f'closedNlB is false for a generated netlist: {" ".join(ans[:6])}', inp=inp); return
+    if not (bok and vok):
+        ck.broken_tie('format_eq: renderings', f'a canonical rendering of a netlist inside closedNlB does not build: {" ".join(ans[:6])}', inp=inp); return
+    if int(dict(x.split('=') for x in ans[:6])['npos']) != npos:
+        ck.broken_tie('format_eq: positions', f"model nPos {flags['npos']} != {npos}", inp=inp); return
+    got = ans[6].split('/') if len(ans) == 7 and ans[6] != '~' else []
+    if len(got) != sub.shape[1]:
+        ck.broken_tie('format_eq: driver answer', ' '.join(ans)[:200], inp=inp); return
+    exp = truth_table(nl, sub)
+    for j, g in enumerate(got):
+        if g.endswith('!') or g.endswith('?'):
+            ck.broken_tie('format_eq: model check', f'row answer {g!r}: benchModelB rejects (!) or the Verilog rendering observes something '
+                          f'else (?) (assignment {reqs[j]})', inp=inp); return
+        obs = [g[p_] for p_ in opos]
+        want = [str(int(exp[k, j])) for k in range(len(opos))]
+        if obs != want:
+            ck.broken_tie('format_eq: denotation', f'model of the canonical renderings observes {obs} != generator {want} '
+                          f'(assignment {reqs[j]})', inp=inp); return
+    ck.hist['format-eq-hyp:denotation-rows'] += sub.shape[1]
+    ck.hist['format-eq-hyp:covered'] += 1
 
 
 def corpus_cases():
